@@ -183,6 +183,26 @@ def ml_session(w, sc, mon):
         return
     mon.ev()
     w.reset()
+    if sc.get("related_modulus_first"):
+        # history: the previous client session on this thread used a modulus made of N's words in another order / with a
+        # cancelling difference (its result is not judged)
+        nle = bytearray(M.N_LE)
+        mode = sc["related_modulus_first"]
+        if mode == 1:
+            nle[8:16], nle[16:24] = nle[16:24], nle[8:16]
+        elif mode == 2:
+            for i in range(8):
+                nle[8 + i] ^= 0x5A
+                nle[16 + i] ^= 0x5A
+        elif mode == 3:
+            nle = nle[8:] + nle[:8]
+        else:
+            nle[0] ^= 0x10
+            nle[8] ^= 0x10
+        w.call("cli_new", into=19, u="Related", p="modulus", g=g, N=bytes(nle), B=M.to_le(5), salt=bytes(32))
+        mon.count("sessions_preceded_by_related_modulus")
+    if sc.get("noise"):
+        w.call("noise", k=sc["noise"])
     predicted = None
     if sc.get("a"):
         a = M.le(bytes.fromhex(sc["a"]))
@@ -380,6 +400,18 @@ def worker(idx, nworkers, tier, seed, extra):
                                        "g": g, "n": M.to_le(p).hex(), "b": rb(rnd, 32).hex(), "a": rb(rnd, 32).hex(),
                                        "Bmode": rnd.choice(["honest", "honest", "unreduced"])}, mon)
                         mon.count("announced_group_cases")
+        # ---- logins on 16 threads of one process at once, every value compared with the model
+        if idx == 5:
+            from sessions import parse_transcripts, judge_transcript
+            ev = w.call("mt_logins", n=(250 if tier == "quick" else 4200), threads=16, tag=seed * 10 + 5)
+            rp = {"engine": "wsx", "kind": "raw", "commands": [ev.cmd]}
+            if ev.status != "ok":
+                mon.violation("c03:mt:" + ev.f.get("stage", ev.status), "multi-threaded logins failed: %s" % str(ev.f)[:300], rp)
+            else:
+                for t, d in parse_transcripts(ev, 16):
+                    judge_transcript(d, mon, "c03", with_model=True, replay=rp)
+                    mon.count("multi_threaded_logins")
+                mon.cell(("mt", 5))
         # ---- volume: LM with registration / db records, ML on the built-in group
         for k in range(n_vol):
             user, pw = rand_cred(rnd), rand_cred(rnd)
@@ -390,7 +422,9 @@ def worker(idx, nworkers, tier, seed, extra):
             else:
                 ml_session(w, {"user": user, "pw": pw, "cuser": case_variant(rnd, user), "cpw": case_variant(rnd, pw),
                                "salt": rb(rnd, 32).hex(), "g": 7, "n": N_HEX, "b": rb(rnd, 32).hex(), "a": None,
-                               "Bmode": "honest", "refused_first": rnd.random() < 0.2}, mon)
+                               "Bmode": "honest", "refused_first": rnd.random() < 0.2,
+                               "related_modulus_first": rnd.randint(1, 4) if rnd.random() < 0.1 else 0,
+                               "noise": rnd.getrandbits(16) if rnd.random() < 0.1 else 0}, mon)
     except ExecutorDied as e:
         mon.violation("c03:executor_died", "executor died rc=%s" % e.rc, {"engine": "wsx", "kind": "raw", "commands": e.last_cmds})
     finally:
